@@ -3,7 +3,7 @@
    the correspondence run, not verified); schema conformance of all fields is an oracle. *)
 From Coq Require Import Lia Permutation Sorted.
 From RM Require Import Gen.C15Fmt.
-From RM Require Import C15.Model C15.Schema C15.Widths C15.Utf8 C15.Pretty C15.Proofs C15.Proofs2 C15.Proofs3 C15.Proofs4 C15.Proofs5 C15.Proofs6 C15.Proofs7 C15.Scalar C15.Proofs8 C15.Proofs9 C15.Regs C15.Proofs10 C15.Consistent C15.Proofs11.
+From RM Require Import C15.Model C15.Schema C15.Widths C15.Utf8 C15.Pretty C15.Proofs C15.Proofs2 C15.Proofs3 C15.Proofs4 C15.Proofs5 C15.Proofs6 C15.Proofs7 C15.Scalar C15.Proofs8 C15.Proofs9 C15.Regs C15.Proofs10 C15.Consistent C15.Proofs11 C15.Proofs12 C15.Proofs13.
 Open Scope Z_scope.
 
 (* Escaping is total and correct: every JSON value — arbitrary nesting, arbitrary integers,
@@ -330,6 +330,12 @@ Theorem c15_any_layout : forall L, ws_layout L -> forall v d, parse_ws (ser_lo L
 Proof. exact ser_lo_parse_ws. Qed.
 Print Assumptions c15_any_layout.
 
+(* [parse_ws] is a conservative extension of the whitespace-free parser [parse] (the one the driver uses to read the real compact output before
+   [conforms], [widths] and [consistent] judge it): whatever [parse] accepts, [parse_ws] accepts with the same value *)
+Theorem c15_parse_ws_extends : forall s v, parse s = Some v -> parse_ws s = Some v.
+Proof. exact parse_ws_extends. Qed.
+Print Assumptions c15_parse_ws_extends.
+
 (* the pretty bytes are valid UTF-8 as well: strict decoding returns the pretty code points *)
 Theorem c15_pretty_utf8 : forall v, jscalar v = true ->
   utf8_decode (length (utf8 (pretty v))) (utf8 (pretty v)) = Some (pretty v) /\ forallb scalar (pretty v) = true.
@@ -549,6 +555,23 @@ Theorem c15_consistent_rejects :
   consistent (ex_doc 0 [] JNull [(k_mac_crash_info, JObj [(k_num_records, JNum 1); (k_records, JArr [JObj []])])]) = true.
 Proof. vm_compute. repeat split; reflexivity. Qed.
 Print Assumptions c15_consistent_rejects.
+
+(* BASENAME (module filename, frame module, debug_file).  translate/c15_fmt.py pins minidump_common::utils::basename
+   (`match f.rfind([separators]) { None => f, Some(index) => &f[(index + 1)..] }`) and reads the separators off the source.  The model's
+   [basename] is exactly that function: a string without separator is returned as it is, otherwise the text after the LAST separator — and every
+   string is of one of the two forms, so the two equations determine it. *)
+Theorem c15_basename :
+  (forall c, is_sep c = true <-> In c BASENAME_SEPARATORS) /\
+  (forall s, (forall c, In c s -> is_sep c = false) -> basename s = s) /\
+  (forall a c b, is_sep c = true -> (forall x, In x b -> is_sep x = false) -> basename (a ++ c :: b) = b) /\
+  (forall s, (forall c, In c s -> is_sep c = false) \/
+             exists a c b, s = a ++ c :: b /\ is_sep c = true /\ (forall x, In x b -> is_sep x = false)).
+Proof. split; [exact is_sep_table|]. split; [exact basename_nosep|]. split; [exact basename_last_sep|exact last_sep_split]. Qed.
+Print Assumptions c15_basename.
+
+Example c15_nonvacuous_basename :
+  basename [67; 58; 92; 97; 47; 98; 92; 109; 46; 100] = [109; 46; 100] /\ basename [109] = [109] /\ basename [97; 47] = [] /\ basename [] = [].
+Proof. vm_compute. repeat split; reflexivity. Qed.
 
 (* ---- non-vacuity ---- *)
 Example c15_nonvacuous_roundtrip :
